@@ -78,6 +78,18 @@ impl From<bool> for PropertyValue {
 }
 
 impl PropertyValue {
+    /// Maximum nesting of lists/maps that `decode` accepts; bounds the decoder's recursion depth.
+    pub const MAX_NESTING_DEPTH: usize = 128;
+
+    /// Number of lists/maps nested inside each other (0 for scalars).
+    pub fn nesting_depth(&self) -> usize {
+        match self {
+            PropertyValue::List(l) => 1 + l.iter().map(Self::nesting_depth).max().unwrap_or(0),
+            PropertyValue::Map(m) => 1 + m.values().map(Self::nesting_depth).max().unwrap_or(0),
+            _ => 0,
+        }
+    }
+
     /// Encode property value to bytes for WAL/property-store persistence.
     pub fn encode(&self) -> Vec<u8> {
         match self {
@@ -144,11 +156,11 @@ impl PropertyValue {
 
     /// Decode property value from bytes.
     pub fn decode(bytes: &[u8]) -> Result<Self, DecodeError> {
-        let (value, _) = Self::decode_recursive(bytes)?;
+        let (value, _) = Self::decode_recursive(bytes, 0)?;
         Ok(value)
     }
 
-    fn decode_recursive(bytes: &[u8]) -> Result<(Self, usize), DecodeError> {
+    fn decode_recursive(bytes: &[u8], depth: usize) -> Result<(Self, usize), DecodeError> {
         if bytes.is_empty() {
             return Err(DecodeError::Empty);
         }
@@ -207,6 +219,9 @@ impl PropertyValue {
                 Ok((PropertyValue::Blob(bytes[5..5 + len].to_vec()), 5 + len))
             }
             7 => {
+                if depth >= Self::MAX_NESTING_DEPTH {
+                    return Err(DecodeError::TooDeep);
+                }
                 if bytes.len() < 5 {
                     return Err(DecodeError::InvalidLength);
                 }
@@ -214,15 +229,19 @@ impl PropertyValue {
                     u32::from_le_bytes(bytes[1..5].try_into().expect("slice length checked"))
                         as usize;
                 let mut pos = 5;
-                let mut items = Vec::with_capacity(count);
+                // `count` is untrusted: every item takes at least one byte, so never reserve more than that.
+                let mut items = Vec::with_capacity(count.min(bytes.len() - pos));
                 for _ in 0..count {
-                    let (item, consumed) = Self::decode_recursive(&bytes[pos..])?;
+                    let (item, consumed) = Self::decode_recursive(&bytes[pos..], depth + 1)?;
                     items.push(item);
                     pos += consumed;
                 }
                 Ok((PropertyValue::List(items), pos))
             }
             8 => {
+                if depth >= Self::MAX_NESTING_DEPTH {
+                    return Err(DecodeError::TooDeep);
+                }
                 if bytes.len() < 5 {
                     return Err(DecodeError::InvalidLength);
                 }
@@ -247,7 +266,7 @@ impl PropertyValue {
                     let key = String::from_utf8(bytes[pos..pos + k_len].to_vec())
                         .map_err(|_| DecodeError::InvalidUtf8)?;
                     pos += k_len;
-                    let (val, consumed) = Self::decode_recursive(&bytes[pos..])?;
+                    let (val, consumed) = Self::decode_recursive(&bytes[pos..], depth + 1)?;
                     map.insert(key, val);
                     pos += consumed;
                 }
@@ -272,6 +291,7 @@ pub enum DecodeError {
     InvalidLength,
     InvalidUtf8,
     UnknownType(u8),
+    TooDeep,
 }
 
 impl std::fmt::Display for DecodeError {
@@ -281,6 +301,7 @@ impl std::fmt::Display for DecodeError {
             DecodeError::InvalidLength => write!(f, "invalid property value length"),
             DecodeError::InvalidUtf8 => write!(f, "invalid UTF-8 in string property"),
             DecodeError::UnknownType(ty) => write!(f, "unknown property value type: {ty}"),
+            DecodeError::TooDeep => write!(f, "property value nested too deeply"),
         }
     }
 }
